@@ -267,6 +267,9 @@ fn configs(thorough: bool, seed: u64) -> Vec<Cfg> {
     }
     v.push(Cfg { cycle: 0.25, delay: 1.0, rep: Rep::Times(u32::MAX), rev: false });
     v.push(Cfg { cycle: 1.5e-5, delay: 0.0, rep: Rep::Times(u32::MAX - 1), rev: true });
+    // "any delay": a negative delay longer than the whole animation (negative total; over before t = 0)
+    v.push(Cfg { cycle: 2.0, delay: -5.0, rep: Rep::None, rev: false });
+    v.push(Cfg { cycle: 0.5, delay: -7.25, rep: Rep::Times(3), rev: true });
     // random general-regime configurations
     let mut r = Rng::derive(seed, 303, 0);
     let n_rand = if thorough { 120 } else { 48 };
@@ -306,6 +309,7 @@ fn boundaries(cfg: &Cfg) -> Vec<f32> {
 const STREAM_SWEEP: u64 = 1;
 const STREAM_GRID: u64 = 2;
 const STREAM_META: u64 = 3;
+const STREAM_ODD: u64 = 4;
 
 pub fn run(run: &mut Run) {
     let thorough = run.thorough();
@@ -399,6 +403,24 @@ pub fn run(run: &mut Run) {
             || Rep::from_mina(tl.repeat()) != cfg.rep
         {
             run.acc.violation("c03:meta", format!("delay/cycle/repeat accessors ({}, {:?}, {:?}) differ from configured {:?}", tl.delay(), tl.cycle_duration(), tl.repeat(), cfg), case("accessors"));
+        }
+        // the same four accessors through the single-component `MergedTimeline` wrapper (the form a timeline takes
+        // inside a state animator) must report what the timeline itself reports
+        {
+            let mg = cfg.merged_probe();
+            run.acc.eval();
+            if !same_f32(mg.delay(), tl.delay())
+                || mg.cycle_duration().map(|c| c.to_bits()) != tl.cycle_duration().map(|c| c.to_bits())
+                || mg.repeat() != tl.repeat()
+                || mg.duration().to_bits() != tl.duration().to_bits()
+            {
+                run.acc.violation(
+                    "c03:meta-merged",
+                    format!("wrapped in a MergedTimeline the accessors report delay {} cycle {:?} repeat {:?} duration {}; the timeline itself reports {} {:?} {:?} {}; {:?}",
+                        mg.delay(), mg.cycle_duration(), mg.repeat(), mg.duration(), tl.delay(), tl.cycle_duration(), tl.repeat(), tl.duration(), cfg),
+                    case("accessors-through-merged-wrapper"),
+                );
+            }
         }
         // "delay + cycle x (repeats+1)" to float rounding: within one ulp of the real total (what a careful
         // evaluation in higher precision gives), or exactly what the formula gives in f32 arithmetic with every
@@ -544,6 +566,75 @@ pub fn run(run: &mut Run) {
                 }
             }
             acc.sample(2, || case(1.0, "exact-grid sample: all t=j/sub-1 compared bit-exactly"));
+        }
+    });
+    // ---- exact instants of cycles that are not powers of two. For a cycle c with few significant bits and a
+    // fraction f = j/64 the time t = delay + c x (k + f) is an f32, t - delay and its remainder c x f are exact, and
+    // the correctly rounded quotient (c x f) / c is f itself: the position is known exactly although the cycle is
+    // off the dyadic grid (every cycle boundary k x c, turning point and end instant among them).
+    let odd_cfgs: Vec<Cfg> = {
+        let mut cycles: Vec<f32> = (1..=100).map(|c| c as f32).collect();
+        cycles.extend_from_slice(&[0.75, 1.5, 12.5, 0.375, 1000.0, 0.046875, 250.0]);
+        let mut v = Vec::new();
+        for cycle in cycles {
+            for delay in [0.0f32, 0.5, 3.0, -1.0] {
+                for rep in [Rep::None, Rep::Times(0), Rep::Times(1), Rep::Times(3), Rep::Infinite] {
+                    for rev in [false, true] {
+                        v.push(Cfg { cycle, delay, rep, rev });
+                    }
+                }
+            }
+        }
+        v
+    };
+    run.extra.push(("exact_non_dyadic_configurations".into(), J::U(odd_cfgs.len() as u64)));
+    run.parallel(|w, nw, acc| {
+        for ci in my_cases(rc, STREAM_ODD, odd_cfgs.len() as u64, w, nw) {
+            let cfg = &odd_cfgs[ci as usize];
+            let ts = cfg.ts();
+            let merged = cfg.merged_probe();
+            let kmax = cfg.rep.cycles().unwrap_or(6).min(6) + 1;
+            let case = |t: f32, what: &str| case_json(STREAM_ODD, ci, vec![("config", cfg.json()), ("t", J::F(t as f64)), ("clause", J::s(what))]);
+            let jstep = if thorough { 1 } else { 4 };
+            for k in 0..=kmax {
+                for j in (0..64u32).step_by(jstep) {
+                    let t64 = cfg.delay as f64 + cfg.cycle as f64 * (k as f64 + j as f64 / 64.0);
+                    let t = t64 as f32;
+                    let e = t64 - cfg.delay as f64;
+                    let r = cfg.cycle as f64 * (j as f64 / 64.0);
+                    if t as f64 != t64 || (e as f32) as f64 != e || (r as f32) as f64 != r {
+                        continue; // not an exact instant in f32
+                    }
+                    let o = observe(&ts, t);
+                    let m = mscale(cfg.cycle as f64, cfg.delay as f64, cfg.rep, cfg.rev, t64);
+                    acc.eval();
+                    let okk = o.phase == m.phase
+                        && o.pos as f64 == m.p
+                        && (o.phase != Phase::Active || (o.repeating == m.repeating && o.reversing == m.reverse_pass));
+                    if !okk {
+                        acc.violation(
+                            format!("c03:odd-grid:{}", m.class()),
+                            format!("exact instant t={t} (cycle {} of a cycle that is not a power of two, fraction {}/64) for {:?}: observed {:?} pos {} (rep {}, rev {}), model {:?} pos {} (rep {}, rev {})",
+                                k, j, cfg, o.phase, o.pos, o.repeating, o.reversing, m.phase, m.p, m.repeating, m.reverse_pass),
+                            case(t, "exact-instant-non-dyadic-cycle"),
+                        );
+                        continue;
+                    }
+                    acc.sig(format!("odd|{}|{}|{}", cfg.rep.class(), cfg.rev, m.class()));
+                    if j % 16 == 0 {
+                        let mut v = S1 { x: 0.25 };
+                        merged.update(&mut v, t);
+                        acc.eval();
+                        if v.x as f64 != m.p {
+                            acc.violation(
+                                "c03:odd-grid-route",
+                                format!("update of the linear probe gives {} at the exact instant t={t}, model position {} for {:?}", v.x, m.p, cfg),
+                                case(t, "update-route-non-dyadic-cycle"),
+                            );
+                        }
+                    }
+                }
+            }
         }
     });
     if thorough {
